@@ -1211,7 +1211,16 @@ func runCodec(c *Ctx) {
 			switch v := n.(type) {
 			case *ast.CallExpr:
 				if calleeIs(f.Info(), v, "io", "ReadAll") && len(v.Args) == 1 {
-					if in, ok := ast.Unparen(v.Args[0]).(*ast.CallExpr); ok && calleeIs(f.Info(), in, "io", "LimitReader") {
+					in, ok := ast.Unparen(v.Args[0]).(*ast.CallExpr)
+					// a buffering reader over the limited reader cannot take more than the record either (round 5)
+					for ok && len(in.Args) >= 1 {
+						fn := Callee(f.Info(), in)
+						if fn == nil || fn.Pkg() == nil || fn.Pkg().Path() != "bufio" || !strings.HasPrefix(fn.Name(), "NewReader") {
+							break
+						}
+						in, ok = ast.Unparen(in.Args[0]).(*ast.CallExpr)
+					}
+					if ok && calleeIs(f.Info(), in, "io", "LimitReader") {
 						lim = true
 					}
 				}
